@@ -212,6 +212,11 @@ class HostileInjector(Oracle):
         keys = self.forger.keys(sender, ptype) if sender.conn is not None else None
         if keys is None:
             return None
+        if ptype == "initial" and self.mon.initial_dcids and ch.choose(3) == 0:
+            # an Initial in the OTHER supported version (its keys are public too)
+            other = 0x6B3343CF if keys.version == 1 else 1
+            pair = wc.initial_keys(self.mon.initial_dcids[ch.choose(len(self.mon.initial_dcids))], other)
+            keys = pair[0] if sender.is_client else pair[1]
         payload = gen_payload(ch, self.ctx(target))
         pn_len = (2, 2, 1, 3, 4)[ch.choose(5)]
         jump = (1, 1, 2, 50, 70000)[ch.choose(5)]
